@@ -1,6 +1,6 @@
 (* C09 — Expand returns a sound and complete picture of a subject set. *)
 From Coq Require Import List Bool NArith ZArith.
-From Keto Require Import Base.Bytes Store.Sql Engine.Engine Engine.Expand Engine.ExpandProofs.
+From Keto Require Import Base.Bytes Store.Sql Engine.Engine Engine.Expand Engine.ExpandProofs Engine.ExpandMore.
 Import ListNotations.
 
 (* every parent->child edge is a stored relationship of the parent subject set; the tree is rooted at the request;
@@ -20,5 +20,13 @@ Theorem C09_complete_within_depth_refuted :
             In (ISid (1%N, [Byte.x75])) (reach_within 1%N d7_db 2 (e_set Byte.x72)) /\
             ~ In (ISid (1%N, [Byte.x75])) (subjects t).
 Proof. exact expand_complete_within_depth_refuted. Qed.
-(* Not yet proved in Coq (decided by the EXPAND suite's oracles on the real engine): each subject set is expanded at
-   most once; with a non-binding depth the subject-id leaves are exactly the reachable subject ids. *)
+(* every Union node lists, in order, exactly the members of its subject set: all pages, nothing dropped or added *)
+Theorem C09_levels_complete : forall nid d global gas V s depth t V',
+  build nid d global gas V s depth = Some (Some t, V') -> Forall (level_ok nid d) (union_nodes t).
+Proof. exact levels_complete. Qed.
+(* each subject set is expanded (is a Union node) at most once in the whole tree *)
+Theorem C09_expanded_once : forall nid d global gas s depth t,
+  BuildTree nid d global gas s depth = Some (Some t) -> NoDup (map key (unions t)).
+Proof. exact expanded_once. Qed.
+(* Not proved in Coq (decided by the EXPAND suite's oracles on the real engine): with a non-binding depth the
+   subject-id leaves are exactly the reachable subject ids (the bounded version is false: known finding D7). *)
